@@ -36,6 +36,7 @@ type Outcome struct {
 	Stdout   string
 	Stderr   string
 	Trace    []TracePoint
+	CPU      time.Duration // user + system time of the process
 }
 
 type TracePoint struct {
@@ -106,6 +107,9 @@ func Exec(r Run) Outcome {
 		out.Killed = true
 	}
 	out.Stdout, out.Stderr = so.String(), se.String()
+	if cmd.ProcessState != nil {
+		out.CPU = cmd.ProcessState.UserTime() + cmd.ProcessState.SystemTime()
+	}
 	if err != nil {
 		if ee, ok := err.(*exec.ExitError); ok {
 			ws := ee.Sys().(syscall.WaitStatus)
